@@ -148,7 +148,7 @@ theorem find_getElem (d : List Nat) (hd : List.Pairwise (· < ·) d) (x i : Nat)
     intro hn
     rw [List.getElem?_eq_none (by omega)] at hx
     simp at hx
-  unfold find
+  unfold find findA
   exact bsearch_mem d hd x i hi hx _ _ _ (by omega) hi (Nat.le_refl _) (by omega)
 
 theorem find_mem (d : List Nat) (hd : List.Pairwise (· < ·) d) (x : Nat) (hx : x ∈ d) :
@@ -272,7 +272,8 @@ theorem enc_eq (xs : List Nat) (hne : xs ≠ []) (hd : (build xs).length ≤ max
   unfold enc
   rw [if_neg hne]
   simp only []
-  rw [if_neg (by omega), mapM_find]
+  have hm : xs.mapM (findA (build xs).toArray (build xs).length) = some (indices xs) := mapM_find xs
+  rw [if_neg (by omega), hm]
 
 theorem enc_accepts (xs : List Nat) (hne : xs ≠ []) (hd : (build xs).length ≤ maxDict) : enc xs ≠ [] := by
   rw [enc_eq xs hne hd]
